@@ -674,6 +674,31 @@ def find_table(cls_name):
     return {"reproduced": False, "note": f"{cls_name}: get_dim matches get_table on {len(TABLES)} small tables"}
 
 
+RECORDS = [[], [{}], [{"a": 1}], [{"a": 1, "b": 2}], [{"a": 1, "b": 2}, {"a": 3, "b": 4}], [{"a": 1}, {"a": 2, "b": 3}], [{"a": 1, "b": 2, "c": 3}, {"a": 4}],
+           [{"a": 1}, {"b": 2}, {"a": None, "c": ""}], [{"x": "1", "y": 2.5}, {"x": "", "y": None}, {"y": 3, "x": 4}, {}]]
+
+
+def find_record_table(cls_name):
+    """Shape postcondition of a table class whose rows are computed from records (XlsSheet): [] without records, else header row
+    + one row per record, every row with one cell per key of the first record; raises nothing."""
+    from sharepoint2text.parsing.extractors import data_types as dt
+    cls = getattr(dt, cls_name)
+    for data in RECORDS:
+        try:
+            t = cls(data=[dict(r) for r in data]).get_table()
+        except Exception as e:  # noqa
+            return {"reproduced": True, "target": f"data_types.py::{cls_name}.get_table", "inputs": {"data": data}, "expected": "no exception",
+                    "observed": f"{type(e).__name__}: {e}"}
+        want_rows = 0 if not data else len(data) + 1
+        width = len(data[0]) if data else 0
+        ok = isinstance(t, list) and len(t) == want_rows and all(isinstance(r, list) and len(r) == width for r in t)
+        if not ok:
+            return {"reproduced": True, "target": f"data_types.py::{cls_name}.get_table", "inputs": {"data": data},
+                    "expected": f"{want_rows} rows of {width} cells (header + one row per record, one cell per key of the first record)",
+                    "observed": f"shape {[len(r) if isinstance(r, list) else type(r).__name__ for r in t] if isinstance(t, list) else type(t).__name__}"}
+    return {"reproduced": False, "note": f"{cls_name}.get_table: documented shape on {len(RECORDS)} small record lists"}
+
+
 def image_instances(cls_name):
     from sharepoint2text.parsing.extractors import data_types as dt
     import dataclasses
@@ -989,6 +1014,51 @@ def find_content_scope(limit=None):
     return {"reproduced": False, "note": f"{n} hand-built content objects honour the interface", "instances": n}
 
 
+def find_iterator(cls_name, meth):
+    """iterate_images / iterate_tables of a content class on hand-built well-typed instances (defaults, the DocContent scope, and
+    one instance per class whose list fields hold one nested element each): no exception, every yielded value implements the
+    interface the method promises (data_types.ImageInterface / TableInterface methods present)."""
+    from sharepoint2text.parsing.extractors import data_types as dt
+    import dataclasses
+    need = ("get_bytes", "get_content_type", "get_metadata") if meth == "iterate_images" else ("get_table", "get_dim")
+    cls = getattr(dt, cls_name, None)
+    objs = [(l, o) for l, o in content_scope() if type(o).__name__ == cls_name][:40]
+
+    def build(c, depth=0):
+        kw = {}
+        for f in dataclasses.fields(c):
+            t = str(f.type)
+            inner = t[t.find("[") + 1:t.rfind("]")] if "ist[" in t else None
+            if inner is not None and depth < 2:
+                ic = getattr(dt, inner.split(".")[-1].strip("'\""), None)
+                if inner.replace(" ", "").lower().startswith(("list[list", "typing.list[typing.list")):
+                    kw[f.name] = [[["a", "b"], ["c"]]]
+                elif ic is not None and dataclasses.is_dataclass(ic):
+                    try:
+                        kw[f.name] = [build(ic, depth + 1)]
+                    except Exception:  # noqa
+                        pass
+            elif f.default is dataclasses.MISSING and f.default_factory is dataclasses.MISSING:
+                kw[f.name] = 1 if t.startswith("int") else (b"x" if "bytes" in t else "")
+        return c(**kw)
+    if cls is not None and dataclasses.is_dataclass(cls):
+        try:
+            objs.append((f"{cls_name}(<one nested element per list field>)", build(cls)))
+        except Exception:  # noqa
+            pass
+    for label, obj in objs:
+        try:
+            got = list(getattr(obj, meth)())
+        except Exception as e:  # noqa
+            return {"reproduced": True, "target": f"data_types.py::{cls_name}.{meth}", "inputs": {"object": label}, "expected": "no exception",
+                    "observed": f"{type(e).__name__}: {e}"}
+        for v in got:
+            if not all(callable(getattr(v, m, None)) for m in need):
+                return {"reproduced": True, "target": f"data_types.py::{cls_name}.{meth}", "inputs": {"object": label},
+                        "expected": f"every yielded value has {', '.join(need)}", "observed": f"yields a {type(v).__name__}"}
+    return {"reproduced": False, "note": f"{cls_name}.{meth}: {len(objs)} hand-built instances"}
+
+
 # --------------------------------------------------------------- isolation --
 META_MEMBERS = ("meta.xml", "docProps/core.xml", "docProps/app.xml")
 
@@ -1157,8 +1227,17 @@ def find(req):
             return {"reproduced": True, "target": ob, "inputs": {"file": s[0]["file"]}, "expected": "size_bytes == len(payload), number >= 1, accessors total",
                     "observed": f"{s[0]['where']}: {s[0]['detail']}"}
         return {"reproduced": False, "note": "damaged / garbled pictures, BLIP stream and fixtures: every image honours the interface"}
+    if ".iterate_images/" in ob or ".iterate_tables/" in ob:
+        q = ob.split("::")[1].split("/")[0]
+        r = find_iterator(*q.split(".", 1))
+        if r["reproduced"]:
+            return r
     if ".get_dim/" in ob:
         return find_table(ob.split("::")[1].split(".")[0])
+    if ".get_table/" in ob and ("/inv-" in ob or "/ensures#row-count" in ob or "/ensures#every-row" in ob):
+        r = find_record_table(ob.split("::")[1].split(".")[0])
+        if r["reproduced"]:
+            return r
     if ".get_bytes/" in ob:
         return find_image(ob.split("::")[1].split(".")[0])
     if "small-scope-accessor-totality" in ob or req.get("content_scope"):
